@@ -5046,7 +5046,15 @@ class TransformLinear(Array):
             index = Take(constant(self.source._indices), self.index)
             return TransformLinear(self.target, self.source._parent, index)
         if self.source._linear_is_constant and (self.target is None or self.target._linear_is_constant):
-            return constant(self._transform_linear(self.source[0], self.source.fromdims))
+            chain = self.source[0]
+            if self.target is not None:
+                # the linear part of the chain relative to the target coordinate
+                # system, i.e. of the tail only
+                try:
+                    chain = self.target.index_with_tail(chain)[1]
+                except ValueError:
+                    return
+            return constant(self._transform_linear(chain, self.source.fromdims))
 
 
 class TransformBasis(Array):
